@@ -180,6 +180,9 @@ class P_auto(StructureParser):
             try:
                 pmethod = getattr(p, method)
                 stru = pmethod(*args, **kwargs)
+                if stru is None:
+                    parsers_emsgs.append("%s: no structure found" % fmt)
+                    continue
                 self.format = fmt
                 break
             except StructureFormatError as err:
